@@ -47,6 +47,7 @@ struct Runner {
     src: String,
     path: Option<String>,
     idle: u32,
+    modules: Value,
 }
 
 impl Runner {
@@ -68,6 +69,7 @@ impl Runner {
             src: p.get("src").and_then(|v| v.as_str()).unwrap_or("").to_string(),
             path: p.get("path").and_then(|v| v.as_str()).map(|s| s.to_string()),
             idle: 0,
+            modules: p.get("modules").cloned().unwrap_or(Value::Null),
         }
     }
     fn flush(&mut self) {
@@ -100,7 +102,9 @@ impl Runner {
                 self.flush();
                 self.kinds.push("C".into());
                 let j = tsrun::js_value_to_json(v.value()).unwrap_or(json!("!unserialisable"));
-                self.fin = Some(json!({"status": "complete", "value": crate::run::render_value(v.value()), "json": j}));
+                // the export names in the order the interpreter reports them (not sorted: the order is part of the trace)
+                let names = self.interp.get_export_names();
+                self.fin = Some(json!({"status": "complete", "value": crate::run::render_value(v.value()), "json": j, "exports": names}));
             }
             Ok(StepResult::Done) => {
                 self.flush();
@@ -110,7 +114,20 @@ impl Runner {
             Ok(StepResult::NeedImports(reqs)) => {
                 self.flush();
                 self.kinds.push(format!("N[{}]", reqs.iter().map(|r| r.resolved_path.as_str().to_string()).collect::<Vec<_>>().join(",")));
-                self.fin = Some(json!({"status": "needimports"}));
+                let mut missing = false;
+                for r in &reqs {
+                    match self.modules.get(r.resolved_path.as_str()).and_then(|v| v.as_str()) {
+                        Some(src) => {
+                            if self.interp.provide_module(r.resolved_path.clone(), src).is_err() {
+                                missing = true;
+                            }
+                        }
+                        None => missing = true,
+                    }
+                }
+                if missing {
+                    self.fin = Some(json!({"status": "needimports"}));
+                }
             }
             Ok(StepResult::Suspended { pending, cancelled }) => {
                 self.flush();
